@@ -268,7 +268,9 @@ func runC18(t *Trace, r *Rng, tier string, _ []string) {
 					return l < west-m && l > east+m
 				}
 				judge("box", got,
-					func(p gpoint) bool { return inLon(p.lon, mg) && p.lat > south+mg && p.lat < north-mg && math.Abs(p.lon) < 180-mg },
+					func(p gpoint) bool {
+						return inLon(p.lon, mg) && p.lat > south+mg && p.lat < north-mg && math.Abs(p.lon) < 180-mg
+					},
 					func(p gpoint) bool {
 						return (outLon(p.lon, mg) && math.Abs(p.lon) < 180-mg) || p.lat < south-mg || p.lat > north+mg
 					},
